@@ -34,8 +34,14 @@ implementations, feature interactions, value normalisation, state that
 outlives a request, error-path ordering); I/J (regressions of the repairs
 made in `/repo`, and changes in helpers shared by several endpoints); M/N
 (rarely used shipped alternatives - other strategies, optional client / session
-interfaces, non-default Config getters - and the interaction of two features).
-Letters K/L are the benign round (section 9.1). After the
+interfaces, non-default Config getters - and the interaction of two features);
+R/S (code many endpoints share - helpers of the root package, the shipped
+session types, the response writers, token/jwt, token/hmac, the reference store
+- and what is written to the wire after the library took the right decision).
+Letters K/L and P/Q are the benign rounds (section 9.1). Seeded changes that a
+later `fix:` commit collided with were re-cut against HEAD (meta `ported`);
+those that a later repair neutralised (the demonstration no longer fails) are
+not kept. After the
 fourth round every kept
 change was applied again to `/repo` HEAD and its checks re-run with the final
 harness (`reseed.py`); the table shows those results. Every change kept here was confirmed by
